@@ -128,6 +128,30 @@ def canonOp (args : List String) : String :=
     hex (signedData sf rs)
   | _ => "bad-op"
 
+/-- `zone.denote <originhex> <defttl|-> line*` with line = `rr:<ownerhex|->:<ttl|->:<cls|->:<0|1>:<typ>` |
+    `ttl:<v>` | `origin:<hex>` | `empty`.  Both the token machine and the specification are run. -/
+def zoneOp (spec : Bool) (args : List String) : String :=
+  match args with
+  | origin :: dttl :: lines =>
+    let n? := fun (s : String) => if s == "-" then none else s.toNat?
+    let ls : List ZLine := lines.filterMap fun l => match l.splitOn ":" with
+      | ["rr", o, t, c, tf, ty] => some (ZLine.rr (if o == "-" then none else unhex o) (n? t) (n? c) (tf == "1") (ty.toNat?.getD 0))
+      | ["ttl", v] => some (ZLine.ttlDir (v.toNat?.getD 0))
+      | ["origin", h] => (unhex h).map ZLine.originDir
+      | ["empty"] => some ZLine.empty
+      | _ => none
+    let org := (unhex origin).getD []
+    let d := (n? dttl).map fun v => (v, false)
+    let showRs := fun (rs : List ZHdr) => " ".intercalate (rs.map fun r => s!"{hex r.name}:{r.ttl}:{r.cls}:{r.typ}")
+    if spec then
+      match denote ls ⟨org, [], 0, d⟩ [] with
+      | some rs => ("ok " ++ showRs rs).trimAscii.toString
+      | none => "err"
+    else
+      let (rs, e) := zrun (ls.flatMap tokensOf) .ownerDir ⟨org, ⟨[], 0, 1, 0⟩, d⟩ []
+      ((if e then "err " else "ok ") ++ showRs rs).trimAscii.toString
+  | _ => "bad-op"
+
 /-- one operation: op name and arguments → one canonical output line -/
 def runOp (op : String) (args : List String) : String :=
   match op, args with
@@ -293,6 +317,15 @@ def runOp (op : String) (args : List String) : String :=
     let rs := replies.map fun r => if r == "E" then Reply.err else Reply.msg (r.toNat?.getD 0)
     (match exchangeStream (qid.toNat?.getD 0) rs with
       | .ok id => s!"ok {id}" | .errId => "errId" | .err => "err")
+  | "gen.stream", [a, b, st, t] => match a.toInt?, b.toInt?, st.toInt?, unhex t with
+    | some a, some b, some st, some t => (match generateStream a b st t with | some o => "ok " ++ hex o | none => "err")
+    | _, _, _, _ => "bad-op"
+  | "ttl", [t] => match unhex t with
+    | some t => (match stringToTTL t with | some v => s!"ok {v}" | none => "err") | none => "bad-op"
+  | "spec.ttl", [t] => match unhex t with
+    | some t => (match ttlSpec t with | some v => s!"ok {v}" | none => "err") | none => "bad-op"
+  | "zone.run", args => zoneOp false args
+  | "spec.zone", args => zoneOp true args
   | "lab.count", [t] => match unhex t with
     | some s => toString (countLabel s) | _ => "bad-op"
   | "lab.split", [t] => match unhex t with
